@@ -69,6 +69,29 @@ pub fn c10_native<G: AffineRepr>(case: &IppCase, seed: u64, model: HashMap<Strin
             out.push(("after create / verify the two transcripts give the same follow-up challenge".into(), fa == fb));
         }
     }
+    // the same factors through iterators that do not know their length (and by value): the verdict may not change
+    {
+        let mut vt2 = Transcript::new(b"ipp-verif");
+        let r2 = proof.verify(n, &mut vt2, gf.iter().filter(|_| true), hf.iter().copied().skip_while(|_| false), &P, &Q, &Gs, &Hs);
+        let mut vt3 = Transcript::new(b"ipp-verif");
+        let (mut gi, mut hi) = (gf.clone().into_iter(), hf.clone().into_iter());
+        let r3 = proof.verify(n, &mut vt3, std::iter::from_fn(move || gi.next()), std::iter::from_fn(move || hi.next()), &P, &Q, &Gs, &Hs);
+        out.push((format!("factors handed over through filter / skip_while / from_fn iterators give the same verdict ({:?}, {:?}, {:?})", res.is_ok(), r2.is_ok(), r3.is_ok()), res.is_ok() == r2.is_ok() && res.is_ok() == r3.is_ok()));
+    }
+    // two openings chained on one running transcript (this one, then a second one of length 2) verify in the same order
+    if res.is_ok() {
+        let (mut pt2, mut vt2) = (pt.clone(), vt.clone());
+        let (g2, h2) = (vec![G::ScalarField::one(); 2], vec![G::ScalarField::one(); 2]);
+        let a2 = vec![G::ScalarField::from(3u64), G::ScalarField::from(5u64)];
+        let b2 = vec![G::ScalarField::from(7u64), G::ScalarField::from(11u64)];
+        let bp2 = BulletproofGens::<G>::new(2, 1);
+        let (G2, H2) = (bp2.share(0).verif_G(2), bp2.share(0).verif_H(2));
+        let c2: G::ScalarField = a2[0] * b2[0] + a2[1] * b2[1];
+        let P2: G = (G2[0] * a2[0] + G2[1] * a2[1] + H2[0] * b2[0] + H2[1] * b2[1] + Q * c2).into_affine();
+        let second = InnerProductProof::create(&mut pt2, &Q, &g2, &h2, G2.clone(), H2.clone(), a2, b2);
+        let ok2 = second.verify(2, &mut vt2, g2.iter(), h2.iter(), &P2, &Q, &G2, &H2).is_ok();
+        out.push(("a second opening created and verified on the same running transcripts is accepted".into(), ok2));
+    }
     // reference verdict by explicit folding with the same challenges
     let mut ot = Transcript::new(b"ipp-verif");
     let us: Vec<G::ScalarField> = {
@@ -484,8 +507,19 @@ pub fn c07_native<G: AffineRepr + 'static>(case: &crate::scen_c07::BatchCase, se
             insts.push((build_verifier(&shapes0[i], &shrs0[i], vt), &ps[i]));
         }
         let mut rng = rand_chacha::ChaChaRng::seed_from_u64(seed ^ 0xa1fa);
-        let ok = batch_verify(&mut rng, insts, &pc, &bp).is_ok();
-        out.push((format!("batch of {} copies of one proof with correlated offsets on the final scalar is rejected", kk), !ok));
+        let mut ok = batch_verify(&mut rng, insts, &pc, &bp).is_ok();
+        // ... and under 24 further weight streams (a weight that degenerates only for some RNG outputs)
+        for ws in 0..24u64 {
+            let shrs1: Vec<_> = (0..kk).map(|_| fork_for_verifier(&shapes[0], &shrs[0])).collect();
+            let mut ts: Vec<Transcript> = shapes0.iter().map(|s| new_verifier_transcript(s)).collect();
+            let mut insts = vec![];
+            for (i, vt) in ts.iter_mut().enumerate() {
+                insts.push((build_verifier(&shapes0[i], &shrs1[i], vt), &ps[i]));
+            }
+            let mut rng = rand_chacha::ChaChaRng::seed_from_u64(seed.wrapping_mul(131) ^ 0xa200 ^ ws);
+            ok |= batch_verify(&mut rng, insts, &pc, &bp).is_ok();
+        }
+        out.push((format!("batch of {} copies of one proof with correlated offsets on the final scalar is rejected (25 weight streams)", kk), !ok));
     }
     // (c) long batches: 9 and 17 copies of the first member; all honest is accepted, one altered copy at the
     // first, a middle or the last position is rejected
